@@ -2098,16 +2098,12 @@ func string_split(_ *Thread, b *Builtin, args Tuple, kwargs []Tuple) (Value, err
 			return nil, fmt.Errorf("split: empty separator")
 		}
 		// usual case: split on non-empty separator
-		if maxsplit < 0 {
+		if b.Name() == "rsplit" {
+			res = rsplit(recv, sep, maxsplit)
+		} else if maxsplit < 0 {
 			res = strings.Split(recv, sep)
-		} else if b.Name() == "split" {
+		} else {
 			res = strings.SplitN(recv, sep, maxsplit+1)
-		} else { // rsplit
-			res = strings.Split(recv, sep)
-			if excess := len(res) - maxsplit; excess > 0 {
-				res[0] = strings.Join(res[:excess], sep)
-				res = append(res[:1], res[excess:]...)
-			}
 		}
 
 	} else {
@@ -2121,10 +2117,31 @@ func string_split(_ *Thread, b *Builtin, args Tuple, kwargs []Tuple) (Value, err
 	return NewList(list), nil
 }
 
+// rsplit splits s at the rightmost non-overlapping occurrences
+// of the non-empty separator sep, at most max of them if max >= 0.
+// Scanning from the right matters when occurrences of sep
+// overlap: "aaa".rsplit("aa") is ["a", ""], not ["", "a"].
+func rsplit(s, sep string, max int) []string {
+	var res []string
+	for ; max != 0; max-- {
+		i := strings.LastIndex(s, sep)
+		if i < 0 {
+			break
+		}
+		res = append(res, s[i+len(sep):])
+		s = s[:i]
+	}
+	res = append(res, s)
+	for i, j := 0, len(res)-1; i < j; i, j = i+1, j-1 {
+		res[i], res[j] = res[j], res[i]
+	}
+	return res
+}
+
 // Precondition: max >= 0.
 func rsplitspace(s string, max int) []string {
 	var res []string // max may be huge: don't pre-size from it
-	end := -1 // index of field end, or -1 in a region of spaces.
+	end := -1        // index of field end, or -1 in a region of spaces.
 	for i := len(s); i > 0; {
 		r, sz := utf8.DecodeLastRuneInString(s[:i])
 		if unicode.IsSpace(r) {
